@@ -17,6 +17,8 @@ DOC = {
         'C11.R2': 'execute vs to_shell_str per variant: Remove rm(file); SoftLink/HardLink mv(link,tmp) ln[-s](target,link) rm(tmp); RefLink mv cp--reflink rm; Move mv | cp+rm; execute and space_to_reclaim return the same field\'s length',
         'C11.R3': 'every path interpolated into a shell line derives from Path::quote',
         'C11.R4': 'dedupe: enumerate before par_bridge, one (index, commands) item per group; log_script: every received item is pushed, emitted iff index == next, next += 1 per pop, priority Reverse(index)',
+        'C11.R8': 'the real run does not fail on files the printed script handles: the lock needs no write permission on the file (re-evaluates C20.R6)',
+        'C11.R7': 'the real run has no failure mode that the printed script lacks for a link member: the lock is not taken through a symbolic link (re-evaluates C20.R5)',
         'C11.R6': 'the quoting applied to every operand is the lossless one (re-evaluates C17.R2, C17.R3, C17.R4)',
         'C11.R5': 'log_script counts 1 and space_to_reclaim() per command; run_script counts 1 and the executed length per successful command',
     },
@@ -91,6 +93,10 @@ def run(ctx):
     r4(ctx)
     r5(ctx)
     r6(ctx)
+    from .common import reevaluate
+    from . import c20
+    reevaluate(ctx, 'C11.R7', c20.r5, ctx.lib)
+    reevaluate(ctx, 'C11.R8', c20.r6, ctx.lib)
     from .common import run_mandatory
     run_mandatory(ctx, 'C11')
 
